@@ -5,6 +5,7 @@ iteration order ("raises" = the `error` branch of the model).
 -/
 import RichchkModel.Lemmas.RichLemmas
 import RichchkModel.Lemmas.TrigLemmas
+import RichchkModel.Lemmas.UpusLemmas
 namespace Richchk.Props.C11
 open Richchk
 
@@ -117,5 +118,50 @@ theorem c11_missing_string_raises (texts : List Bytes) (t : Bytes) (h : t ∉ te
   cases hl : lastIndexOf texts t with
   | none => rfl
   | some j => exact absurd (List.mem_of_getElem? (lastIndexOf_some_get hl)) h
+
+/-- **the slot-usage table agrees with the slots in use**: entry `i` of the emitted UPUS is 1
+exactly when the unit-property list written to UPRP holds a set at slot `i+1` -/
+theorem c11_upus_agrees_with_slots {cfg : RichCfg} {cuwps : List RCuwp} {u : List Nat}
+    (h : rebuildUpus cfg cuwps = .ok u) :
+    u.length = cfg.cuwpSlots ∧
+    ∀ i, i < cfg.cuwpSlots → (u.getD i 0 = 1 ↔ ∃ c ∈ cuwps, c.idx = some (i + 1)) :=
+  rebuildUpus_spec h
+
+/-- a set whose index is 0 or beyond the table makes the save raise (it cannot be marked in use) -/
+theorem c11_out_of_range_slot_raises (cfg : RichCfg) (cuwps : List RCuwp) (c : RCuwp) (hc : c ∈ cuwps)
+    (hbad : c.idx = none ∨ c.idx = some 0 ∨ ∃ k, c.idx = some k ∧ cfg.cuwpSlots < k) :
+    ∃ e, rebuildUpus cfg cuwps = .error e := by
+  cases hr : rebuildUpus cfg cuwps with
+  | error e => exact ⟨e, rfl⟩
+  | ok u =>
+    exfalso
+    unfold rebuildUpus at hr
+    have key : ∀ (cs : List RCuwp) (acc out : List Nat), c ∈ cs → acc.length = cfg.cuwpSlots →
+        rebuildUpus.go cs acc = .ok out → False := by
+      intro cs
+      induction cs with
+      | nil => intro _ _ hm; simp at hm
+      | cons d ds ih =>
+        intro acc out hm hacc hgo
+        simp only [rebuildUpus.go] at hgo
+        rcases List.mem_cons.mp hm with hcd | hcd
+        · subst hcd
+          rcases hbad with h0 | h0 | ⟨k, hk, hgt⟩
+          · simp [h0] at hgo
+          · simp [h0] at hgo
+          · simp only [hk] at hgo
+            split at hgo
+            · cases hgo
+            · split at hgo
+              · omega
+              · cases hgo
+        · split at hgo
+          · cases hgo
+          · split at hgo
+            · cases hgo
+            · split at hgo
+              · exact ih _ _ hcd (by simpa using hacc) hgo
+              · cases hgo
+    exact key cuwps _ u hc (by simp) hr
 
 end Richchk.Props.C11
